@@ -7,17 +7,41 @@ from mc.patterns import pat
 
 PROPERTY_ID = "C19"
 RULE = ("2-safety by self-composition over an enumerated secret alphabet: for each operation (X25519 general and fixed-base, Ed25519 keypair / signature / "
-        "signature_extended, XChaCha20 / ChaCha20-original / XSalsa20, HMAC-SHA1/-SHA512, keyed BLAKE2b MAC, ed25519::exchange, AEAD encryption, Poly1305 (also on the RFC 8439 A.3 wrap-around messages with keys r in {1,2}, s in {0,ff..} whose accumulator crosses 2^130-5), HMAC-SHA256, ChaCha20, Salsa20, MacResult == (lengths 16..64 incl. 20, 28, 33), Tag ==, incremental AEAD tag verdict) the release-profile victim (hooks off) is "
+        "signature_extended, the wide scalar reduction on chosen remainders r + k*L around every comparison against the group order, XChaCha20 / ChaCha20-original / XSalsa20, HMAC-SHA1/-SHA512, keyed BLAKE2b MAC, ed25519::exchange, AEAD encryption, Poly1305 (also on the RFC 8439 A.3 wrap-around messages with keys r in {1,2}, s in {0,ff..} whose accumulator crosses 2^130-5), HMAC-SHA256, ChaCha20, Salsa20, MacResult == (lengths 16..64 incl. 20, 28, 33), Tag ==, incremental AEAD tag verdict) the release-profile victim (hooks off; for the curve operations also the victim built with --features force-32bits) is "
         "executed under valgrind lackey once per secret with all public inputs fixed; the complete sequence of instruction addresses between two markers must be "
         "identical to the baseline secret's; secrets: 00.., FF.., single-bit values, patterns; for comparisons: equal, and first mismatch at every position; the "
         "baseline is traced twice and must equal itself; a deliberately leaky operation must be flagged (tracer self-test) before any verdict; thorough re-traces the "
         "short operations with a ptrace single-stepper and requires the same sequences; a state = one (operation, secret) execution; distinct = (operation, secret)")
 ASSUMPTIONS = ["instruction addresses only: data addresses are reported as information, micro-architectural timing is out of scope",
-               "only the baseline x86-64 release build produced by this compiler is examined", "bounded-exhaustive over the secret alphabet, not a proof of constant-time code"]
+               "only the baseline x86-64 release builds (default and force-32bits) produced by this compiler are examined", "bounded-exhaustive over the secret alphabet, not a proof of constant-time code"]
 
 
 def builds_needed(tier):
-    return ["ctvictim"]
+    return ["ctvictim", "ctvictim32"]
+
+
+# operations whose code differs between the 64-bit and the forced 32-bit curve backend are traced on both victim builds
+CURVE_OPS = ("x25519_dh", "x25519_base", "ed_keypair", "ed_sign", "ed_sign_ext", "ed_exchange", "sc_reduce")
+L_ORDER = (1 << 252) + 27742317777372353535851937790883648493
+
+
+def reduce_secrets(tier):
+    """64-byte secrets r + k*L whose remainders sit on both sides of every comparison a reduction could make against the group
+    order (top limb equal to / below L's, values next to 2^252, 0, L-1) with small, middle and maximal quotients"""
+    rs = [5, 0, 1, (1 << 252) - 1, 1 << 252, (1 << 252) + 1, (1 << 252) + (1 << 223), (1 << 252) + (1 << 200) + 5, L_ORDER - 1, L_ORDER - 2,
+          (1 << 224) - 1, 1 << 224, (1 << 251), (1 << 168) - 1]
+    kmax = ((1 << 512) - 1) // L_ORDER
+    ks = [3, 0, 1, kmax - 1, 1 << 128] if tier == "thorough" else [3, 0, kmax - 1]
+    out = []
+    for k in ks:
+        for r in rs:
+            x = r + k * L_ORDER
+            if x < (1 << 512):
+                b = x.to_bytes(64, "little")
+                if b not in out:
+                    out.append(b)
+    out += [pat(5, 0, 64), b"\xff" * 64]
+    return out
 
 
 def bounds(tier):
@@ -64,6 +88,7 @@ def ops(tier):
     out.append(("hmac_sha256", msg67, secrets(32, tier, 16, (0, 127, 128, 255))))
     out.append(("chacha20", data130, secrets(32, tier, 16, (0, 127, 128, 255))))
     out.append(("salsa20", data130, secrets(32, tier, 16, (0, 127, 128, 255))))
+    out.append(("sc_reduce", "", reduce_secrets(tier)))
     EDPUB = "d75a980182b10ab7d54bfed3c964073a0ee172f3daa62325af021a68f707511a"     # RFC 8032 test 1 public key
     more = [("xchacha20", data130, 32), ("chacha20_original", data130, 32), ("xsalsa20", data130, 32), ("hmac_sha512", msg67, 32), ("hmac_sha1", msg67, 20),
             ("blake2b_mac", msg67, 32), ("ed_exchange", EDPUB, 32), ("aead_encrypt", data130, 32)]
@@ -92,28 +117,36 @@ def shards(tier):
     sh = []
     for oi, (op, pub, sec) in enumerate(ops(tier)):
         step = 8
-        for lo in range(1, len(sec), step):
-            sh.append(("shard", (oi, lo, min(len(sec), lo + step))))
+        for build in (("ctvictim", "ctvictim32") if op in CURVE_OPS else ("ctvictim",)):
+            for lo in range(1, len(sec), step):
+                sh.append(("shard", (oi, lo, min(len(sec), lo + step), build)))
     sh.append(("shard_selftest", None))
     if tier == "thorough":
         sh.append(("shard_ptrace", None))
     return sh
 
 
-def _violation(st, op, pub, base, sec, why):
+def _violation(st, op, pub, base, sec, why, build="ctvictim"):
     st.violation_count += 1
     if len(st.violations) < core.MAX_RECORDED:
-        st.violations.append({"property": PROPERTY_ID, "build": "ctvictim", "program": ["ctvictim %s %s %s" % (op, sec.hex(), pub), "baseline %s %s %s" % (op, base.hex(), pub)],
+        st.violations.append({"property": PROPERTY_ID, "build": build, "program": ["ctvictim %s %s %s" % (op, sec.hex(), pub), "baseline %s %s %s" % (op, base.hex(), pub)],
                               "step": 0, "expected": "instruction-address sequence identical to the baseline secret's", "observed": why,
                               "meta": {"op": op, "public": pub, "baseline": base.hex(), "secret": sec.hex()}, "note": None})
 
 
 def shard(arg, tier):
     from tracer import lackey
-    oi, lo, hi = arg
+    oi, lo, hi, build = arg
     op, pub, sec = ops(tier)[oi]
     st = core.Stats()
     base = sec[0]
+    _trace = lackey.trace
+
+    class _L:
+        @staticmethod
+        def trace(op, s, pub="", keep=False):
+            return _trace(op, s, pub, keep=keep, build=build)
+    lackey = _L
     n0, h0, d0, out0, _ = lackey.trace(op, base.hex(), pub)
     st.evaluations += 1
     if lo == 1:
@@ -140,12 +173,12 @@ def shard(arg, tier):
             _, _, _, _, b = lackey.trace(op, s.hex(), pub, keep=True)
             k = next((i for i, (x, y) in enumerate(zip(a, b)) if x != y), min(len(a), len(b)))
             _violation(st, op, pub, base, s, "traces differ: %d vs %d instructions, first divergence at instruction #%d (offset %s vs %s from the begin marker)"
-                       % (n0, n, k, hex(a[k]) if k < len(a) else "end", hex(b[k]) if k < len(b) else "end"))
+                       % (n0, n, k, hex(a[k]) if k < len(a) else "end", hex(b[k]) if k < len(b) else "end"), build)
         elif d != d0:
             data_diff += 1
     st.transitions += n0
     if len(st.samples) < 2:
-        st.samples.append(["ctvictim %s <secret %d bytes> %s..: %d instructions between the markers" % (op, len(base), pub[:16], n0)])
+        st.samples.append(["%s %s <secret %d bytes> %s..: %d instructions between the markers" % (build, op, len(base), pub[:16], n0)])
     st.extra["data_address_differences_info"] = data_diff
     st.extra["instructions_traced"] = st.transitions
     return st
@@ -204,8 +237,9 @@ def replay(v):
     """./check replay for C19: re-trace the two executions of the recorded violation"""
     from tracer import lackey
     m = v["meta"]
-    a = lackey.trace(m["op"], m["baseline"], m["public"])
-    b = lackey.trace(m["op"], m["secret"], m["public"])
+    build = v.get("build") or "ctvictim"
+    a = lackey.trace(m["op"], m["baseline"], m["public"], build=build)
+    b = lackey.trace(m["op"], m["secret"], m["public"], build=build)
     print("baseline: %d instructions, digest %s" % (a[0], a[1]))
     print("secret  : %d instructions, digest %s" % (b[0], b[1]))
     return (a[0], a[1]) == (b[0], b[1])
